@@ -100,6 +100,85 @@ def standin_prec_chains(tier, seed, maxlen=None):
                 cases=len(cases), status='ok')
 
 
+def standin_prec_operand_kinds(tier, seed):
+    """C02: "operands (incl. parenthesised ones) are opaque leaves, so grouping depends on operators only": the same chains with the
+    operands varied over bare symbols, parenthesised symbols, string and integer literals and parenthesised sub-chains, plus explicit
+    parentheses against the default grouping for EVERY ordered operator pair."""
+    lv = doc_levels()
+    toks = sorted(SRC_OP)
+    rnd = random.Random(seed * 31 + 5)
+    DOT = [t for t in toks if SRC_OP[t] == 'DOT'][0]
+
+    def operand(kind, i):
+        nm = 'abcdefgh'[i]
+        if kind == 'sym':
+            return nm, nm
+        if kind == 'gsym':
+            return '(%s)' % nm, '[%s]' % nm
+        if kind == 'str':
+            return '"s%d"' % i, '"s%d"' % i
+        if kind == 'int':
+            return str(i + 2), str(i + 2)
+        o = toks[(i * 7 + 3) % len(toks)]
+        if o == DOT:
+            o = toks[(i * 7 + 4) % len(toks)]
+        return '(%s %s %s)' % (nm, o, nm.upper()), '[(%s %s %s)]' % (nm, SRC_OP[o], nm.upper())
+
+    def kinds_for(pos, combo):
+        """operand kinds allowed at position pos of the chain: next to a `.` only what the selector grammar takes"""
+        left_dot = pos > 0 and combo[pos - 1] == DOT          # this operand is the right side of a `.`
+        right_dot = pos < len(combo) and combo[pos] == DOT     # ... the left side of a `.`
+        if left_dot and right_dot:
+            return ['sym', 'str']
+        if left_dot:
+            return ['sym', 'str']
+        if right_dot:
+            return ['sym', 'gsym', 'gchain']
+        return ['sym', 'gsym', 'str', 'int', 'gchain']
+
+    cases, exps = [], []
+
+    def add(combo, kinds):
+        srcs, leaves = zip(*[operand(k, i) for i, k in enumerate(kinds)])
+        src = srcs[0]
+        for i, t in enumerate(combo):
+            src += ' %s %s' % (t, srcs[i + 1])
+        cases.append(src + ';')
+        exps.append(expected_shape(list(leaves), [SRC_OP[t] for t in combo], lv))
+
+    # every operator with every admissible pair of operand kinds
+    for t in toks:
+        for ka in kinds_for(0, (t,)):
+            for kb in kinds_for(1, (t,)):
+                add((t,), (ka, kb))
+    # every ordered operator pair: a few operand-kind assignments each, and explicit parentheses both ways
+    per_pair = 10 if tier == 'thorough' else 3
+    for t1 in toks:
+        for t2 in toks:
+            combo = (t1, t2)
+            for _ in range(per_pair):
+                add(combo, [rnd.choice(kinds_for(i, combo)) for i in range(3)])
+            if t1 != DOT:                                   # a op1 (b op2 c): the parenthesised chain is ONE operand of op1
+                cases.append('a %s (b %s c);' % (t1, t2))
+                exps.append('(a %s [(b %s c)])' % (SRC_OP[t1], SRC_OP[t2]))
+            cases.append('(a %s b) %s c;' % (t1, t2))     # (a op1 b) op2 c
+            exps.append('([(a %s b)] %s c)' % (SRC_OP[t1], SRC_OP[t2]))
+    # longer chains with random operand kinds
+    for _ in range(6000 if tier == 'thorough' else 1200):
+        combo = tuple(rnd.choice(toks) for _ in range(rnd.randint(3, 6)))
+        add(combo, [rnd.choice(kinds_for(i, combo)) for i in range(len(combo) + 1)])
+    bound = ('%d chains: every operator x every admissible pair of operand kinds (symbol, parenthesised symbol, string literal, integer literal, parenthesised '
+             'sub-chain; next to `.` only what a selector takes); every ordered operator pair with %d seeded operand-kind assignments and with explicit parentheses '
+             'both ways; seeded chains of 3..6 operators with random operand kinds' % (len(cases), per_pair))
+    res = R.driver('shape', cases)
+    for src, exp, (st, out) in zip(cases, exps, res):
+        if st != 'OK' or out != exp:
+            return dict(name='prec_operand_kinds', bound=bound, cases=len(cases), status='violation',
+                        detail='`%s` parses as %s %s, the published table (operands are opaque leaves) demands %s' % (src, st, out, exp),
+                        input=dict(source=src, expected=exp, observed=out, how='replay driver `shape` (ucglib::parse::parse)'))
+    return dict(name='prec_operand_kinds', bound=bound, cases=len(cases), status='ok')
+
+
 # ------------------------------------------------------------------ C01/C04: integer arithmetic
 EDGE = [0, 1, -1, 2, -2, 3, 7, -7, 10, 3037000499, 3037000500, -3037000500, 2 ** 31, 2 ** 32, 2 ** 62,
         I64_MAX, I64_MAX - 1, I64_MIN, I64_MIN + 1]
